@@ -29,7 +29,8 @@ META = {
             "with and without restore_on_err, whole optimize, default features and grammar-extras) and checks the property on the implementation: real "
             "pest_vm before vs after every real pass on all short inputs, Spec before vs after, VM vs Spec on the unroll/restore streams. NOT theorems: "
             "that `optimize` returns normally on every valid grammar (proved for rotate/factor/unroll with reader-accepted counts only), and the link "
-            "exec . vm_expr = Spec (that is C01); the restorer clause is therefore stated operationally.",
+            "exec . vm_expr = Spec (that is C01); the restorer clause is therefore stated operationally."
+            " After a broken proof obligation or structural correspondence with no input found, an escalated search (real VM before vs after each real pass, no model involved) runs on the differing grammars with inputs derived from their literals (case variants, prefixes, concatenations), on mutated variants of them and on more generated rule sets.",
     "note": "Trusted: Coq kernel; extraction (ExtrOcamlBasic only); harness/runner/driver; HashMap<String,_> modelled as last-binding-wins "
             "association list; Rust String = valid UTF-8 byte list; stack overflow of populate_choices on cyclic first alternatives modelled as "
             "abnormal termination (None).",
@@ -108,6 +109,46 @@ def grammar_of_case(case):
     return case[i + 3:] if i >= 0 else ""
 
 
+def escalated_search(builds, grammars, seed, tier, maxlen):
+    """Only after a proof obligation or the structural correspondence broke and the ordinary streams found no failing input: the real VM
+    before vs after every real pass (no model involved) on (1) the rule sets on which the real pass and coq/Opt differ, with inputs derived
+    from their own literals (each literal, its case variants, its proper prefixes, concatenations), (2) variants of those rule sets
+    (harness `mutate`), (3) more rule sets of the `sem` generator.  Returns (CONTRACT lines with label, coverage record)."""
+    import tempfile
+    t0 = time.time()
+    cap, nvar, nrand, tmo = (64, 40, 80, 120) if tier == "quick" else (400, 150, 600, 1200)
+    shards = max(1, NPROC // max(1, len(builds)))
+    tmp = tempfile.mkdtemp(prefix="c05-search-")
+    jobs = []
+    cov = {"ran": True, "rule_sets_given": 0, "shards": 0}
+    for label, hbin in sorted(builds.items()):
+        gs = sorted(set(grammars.get(label, [])), key=lambda g: (len(g), g))[:cap]
+        cov["rule_sets_given"] += len(gs)
+        for i in range(shards):
+            part = gs[i::shards]
+            if not part and i > 0 and gs:
+                continue
+            f = os.path.join(tmp, "%s-%d.txt" % (label, i))
+            with open(f, "w") as fh:
+                fh.write("\n".join(part) + "\n")
+            jobs.append((label, "ulimit -v 6000000; timeout %d %s search %s %d %d %d %d" % (tmo, hbin, f, seed * 1000 + 500 + i, nvar, nrand, maxlen)))
+    cov["shards"] = len(jobs)
+    outs = run_pipeline([j[1] for j in jobs], timeout=tmo + 30)
+    lines, failed = [], 0
+    for (rc, out), (label, cmd) in zip(outs, jobs):
+        if rc != 0:
+            failed += 1          # a shard that ran out of time or memory still contributes what it printed
+        m, st, other = parse_runner_output(out)
+        for k in ("given", "skipped", "variants", "random", "hits_given", "hits_variant", "hits_random", "inputs", "vm_runs"):
+            if isinstance(st.get(k), int):
+                cov[k] = cov.get(k, 0) + st[k]
+        lines += [(label, l) for l in other if l.startswith("CONTRACT\t")]
+    sh("rm -rf %s" % tmp)
+    cov["shards_incomplete"] = failed
+    cov["wall_s"] = round(time.time() - t0, 1)
+    return lines, cov
+
+
 def run(tier, seed, replay=None):
     res = Result("C05", tier, seed, "proof")
     thm = check_theorems("C05")
@@ -155,7 +196,8 @@ def run(tier, seed, replay=None):
         if mode == "witness":
             cmd = "%s witness | %s %s" % (hbin, runner, flags[label])
         else:
-            cmd = "%s %s %s %s | %s %s --spec 4" % (hbin, mode, shlex.quote(rj.get("grammar", "")), "5" if mode == "semone" else "", runner, flags[label])
+            extra = ("5 " + shlex.quote(rj["input_hex"])) if mode == "semone" and rj.get("input_hex") else ("5" if mode == "semone" else "")
+            cmd = "%s %s %s %s | %s %s --spec 4" % (hbin, mode, shlex.quote(rj.get("grammar", "")), extra, runner, flags[label])
         rc, out = sh(cmd, timeout=300)
         m, s, other = parse_runner_output(out)
         bad = [x for x in m if x["kind"] == "spec" and (mode != "witness" or ("witness=%s " % rj.get("witness", "")) in x["case"])]
@@ -221,20 +263,37 @@ def run(tier, seed, replay=None):
         res.violation("%s%s (features %s, %d cases): %s: impl `%s` vs spec `%s`" % (what, hint, label, len(ms), worst["case"][:600], worst["impl"].split("|", 1)[-1][:200], worst["expected"][:200]),
                       {"theorem_or_correspondence": "C05 oracle: impl vs Peg.Spec", "mode": "semone" if not cls.startswith("pass") else "one", "features": label,
                        "grammar": grammar_of_case(worst["case"]), "case": worst["case"], "impl": worst["impl"], "spec": worst["expected"], "cases_in_class": len(ms)})
+    model_m = [m for m in mism if m["kind"] == "model"]
+    base_contract = any(l.startswith("CONTRACT\tother") for label, l in lines)
+    search_cov = {"ran": False}
+    escalated = set()
+    if (model_m or not thm["ok"]) and not found_input and not base_contract:
+        per_label = {}
+        for m in model_m:
+            if m["label"] in builds and grammar_of_case(m["case"]):
+                per_label.setdefault(m["label"], []).append(grammar_of_case(m["case"]))
+        log("C05: %s and the ordinary streams found no failing input: escalated search (real VM before/after every real pass on %d rule sets on which "
+            "pass and model differ, inputs derived from their literals; variants of them; more generated rule sets)" % (
+                "the structural correspondence broke" if model_m else "a proof obligation broke", sum(len(set(v)) for v in per_label.values())))
+        elines, search_cov = escalated_search(builds, per_label, seed, tier, maxlen)
+        search_cov["reason"] = "structural correspondence broke" if model_m else "proof obligation broke"
+        escalated = set(l for label, l in elines)
+        lines += elines
+        log("C05: escalated search: %s" % json.dumps(search_cov, sort_keys=True))
     contracts = {}
     for label, l in lines:
         if l.startswith("CONTRACT\tother"):
             p = l.split("\t")
-            contracts.setdefault((p[2], label), []).append(p)
+            contracts.setdefault((p[2], label), []).append(p + [l in escalated])
     for (pas, label), ps in sorted(contracts.items()):
         worst = min(ps, key=lambda p: len(p[4]) + len(p[5]))
         found_input = True
-        res.violation("the real VM accepts/tokenises differently before and after the real pass `%s` (features %s, %d inputs): grammar %s input(hex) %s: before `%s` after `%s`" % (
-            PASS_NAMES[int(pas)], label, len(ps), worst[4][:600], worst[5], worst[6][:200], worst[7][:200]),
+        res.violation("the real VM accepts/tokenises differently before and after the real pass `%s` (features %s, %d inputs%s): grammar %s input(hex) %s: before `%s` after `%s`" % (
+            PASS_NAMES[int(pas)], label, len(ps), ", found by the escalated search" if worst[-1] else "", worst[4][:600], worst[5], worst[6][:200], worst[7][:200]),
             {"theorem_or_correspondence": "C05 property oracle: pest_vm on the rules before vs after the pass", "mode": "semone", "features": label,
-             "grammar": worst[4], "input_hex": worst[5], "before": worst[6], "after": worst[7], "pass": PASS_NAMES[int(pas)]})
+             "grammar": worst[4], "input_hex": worst[5], "before": worst[6], "after": worst[7], "pass": PASS_NAMES[int(pas)],
+             "found_by": "escalated search" if worst[-1] else "sem stream"})
     # 3. structural correspondence
-    model_m = [m for m in mism if m["kind"] == "model"]
     by_pass = {}
     for m in model_m:
         pas = re.search(r"pass=(\d+)", m["case"])
@@ -280,8 +339,13 @@ def run(tier, seed, replay=None):
                 "0-3 and u32::MAX, e+; adjacent Str/Insens in every association; the three factor shapes with equal/unequal heads; the lister shape; stack "
                 "operations under choices/optionals/repetitions/tags/rule references incl. cyclic references; plus gram::gen_grammar). Structural: every pass on the "
                 "raw AST and in pipeline order, to_optimized with/without restore_on_err, optimize; default features and grammar-extras. Property oracle: real VM "
-                "before/after each pass on all inputs of length <= %d over the grammar's alphabet; Spec before/after on inputs <= %d; VM vs Spec on the unroll/restore "
-                "streams. One evaluation = one (pass, AST) comparison or one (rule set, input) parse. non-trivial = distinct (pass, AST) on which the rewrite fired" % (maxlen, speclen),
+                "before/after each pass on all inputs of length <= %d over the grammar's alphabet, all inputs of length <= 3 over that alphabet plus the case-swapped "
+                "letters, and up to 300 concatenations (<= 3 tokens, <= 6 bytes) of tokens derived from the grammar's own literals (each literal, its case-swapped / "
+                "upper / lower forms, its proper prefixes and characters, one member of each named character class); Spec before/after on inputs <= %d (plus the "
+                "upper-case letters, one shorter, when the grammar has case-insensitive literals); VM vs Spec on the unroll/restore "
+                "streams. Concatenate shapes mix case-sensitive and case-insensitive literals; factor shapes include alternatives whose heads (or tails) "
+                "match prefixes of each other before a shared tail (after a shared head). `escalated_search` says what the search after a broken "
+                "proof / correspondence covered when it ran. One evaluation = one (pass, AST) comparison or one (rule set, input) parse. non-trivial = distinct (pass, AST) on which the rewrite fired" % (maxlen, speclen),
         "exhaustive": False,
         "samples": ["x=0 pass=4 g=(r0 a (cho (seq (str 78) (str 79)) (str 78)))", "x=1 pass=7 g=(r0 n (opt (tag t (id r1))));(r1 n (id POP))"],
         "runner_cases": stats.get("cases", 0),
@@ -291,8 +355,10 @@ def run(tier, seed, replay=None):
         "per_pass_cases": {PASS_NAMES[i]: stats.get("pass%d_cases" % i, 0) for i in range(9)},
         "vm_runs": stats.get("vm_runs", 0), "spec_cases": stats.get("spec_cases", 0), "spec_undecided": stats.get("spec_undecided", 0),
         "lister_class_cases": lister_cases, "panics_agree": stats.get("panics_agree", 0),
+        "escalated_search": search_cov,
     })
-    res.assumptions = ["inputs of the semantic runs: all strings up to the length bound over {x, y, space|z, e-acute}; the theorems are for arbitrary inputs",
+    res.assumptions = ["inputs of the semantic runs: all strings up to the length bound over {x, y, space|z, e-acute}, short strings with their upper-case forms, and "
+                       "a bounded sample of concatenations of the grammar's literals, their case variants and prefixes; the theorems are for arbitrary inputs",
                        "real-VM runs use a call limit of 3000 with an explicit probe so that a parse that ran into the limit is never taken for a result",
                        "rule sets of the semantic runs only call higher-numbered rules (no recursion); the structural runs include cyclic references"]
     return res.finish()
